@@ -3658,4 +3658,23 @@ example :
     ((recvHandlerPlainOnCtx cfgA 0 cHome pHome).map fun c => (c.acks 1 1, c.evm.out 0 1, c.evm.bal 0 acEndpoint, c.evm.bal 0 13))
       = some (some 1, 600, 600, 0) := by decide
 
+/-- **Module-initiated calls run the packet hook over their logs exactly like user transactions**: whenever the receive
+callback (a module-initiated EVM call) succeeds, either it announced no packet and the commitments are as before, or the
+packet it announced (the agent's nested `crossChainCall`: escrowed / burnt inside that call) has been committed by the
+hook of that very call and the send counter advanced — there is no successful module call whose `PacketSent` event has
+no commitment. (The fee payout and the callbacks of an acknowledgement go through the same `CallEVMWithData`; the source
+fact that no contract method is exempt from the hooks is the guard fact on `Keeper.CallPacket` / `CallEVMWithData`.) -/
+theorem module_call_hooks_run {cfg : Cfg} {me : ChainId} {c c2 : Chain} {p : Packet}
+    (h : onRecv cfg me c p = .ok c2) :
+    c2.commits = c.commits ∨ ∃ p2, c2.commits = p2 :: c.commits ∧ c2.nextSeq p2.dst = p2.seq + 1 := by
+  obtain ⟨e, tok, k, _, hcase⟩ := onRecv_ok h
+  rcases hcase with h1 | ⟨a, e3, p2, sq, _, _, hk⟩
+  · left; subst h1; rfl
+  · right
+    unfold sendKeeper at hk
+    split at hk
+    · have := (Option.some.inj hk).symm; subst this
+      exact ⟨p2, rfl, by simp [upd1]⟩
+    · cases hk
+
 end TM.World
